@@ -80,6 +80,26 @@ CLAIMS = {
              "enough and output is enabled; otherwise frame and counters are untouched. Bounded in the number of "
              "write datagrams by the layouts checked.",
         note=BPFVC_TRUST + "; the history clause (c) rests on C22's step contract; layouts are a finite sample"),
+    "C07": dict(
+        engine="bpfvc", category="other", design_ref="DESIGN.md section 4 C07 (Stage A)",
+        technique="contract-based deductive verification of generated programs: struct.pack/unpack postconditions "
+                  "and guard semantics on the assembled bytes of enumerated packet-variable programs",
+        text="Stage A: 192 (quick) / 384 (thorough) programs - every format B H I Q b h i q with native, <, > and ! "
+             "byte order, read / write / in-place update, several offset/guard pairs including the access that just "
+             "fits - are built with the real DSL and each is proved for all packet contents, all packet lengths and "
+             "all values: value read = struct.unpack, bytes written = struct.pack, no other byte touched, body runs "
+             "iff the packet is longer than the guard, every access in bounds. Bounded in the enumerated offsets.",
+        note=BPFVC_TRUST + "; host is little endian (A-LE); offsets enumerated, not symbolic"),
+    "C06": dict(
+        engine="bpfvc+lean", category="other", design_ref="DESIGN.md section 4 C06",
+        technique="contract-based deductive verification of generated statements (single atomic add, proved "
+                  "semantics) plus a machine-checked Lean lemma for arbitrary interleavings",
+        text="Stage A: every enumerated in-place addition/subtraction (formats q Q i I x; local, array-map, packet, "
+             "pointer variables; constant, 64-bit constant, register and expression amounts) compiles to exactly "
+             "one access of the variable, an atomic add of its width, and run alone adds the amount modulo 2**width "
+             "for all initial values. Lemma L-XADD (Lean 4 + Mathlib, no axioms beyond propext) proves that any "
+             "number of such instances under any instruction interleaving ends at x0 + sum of the amounts.",
+        note=BPFVC_TRUST + "; atomicity of BPF_ATOMIC|BPF_ADD is the ISA's contract; bounded in statement shapes"),
 }
 
 NA = {
